@@ -10,7 +10,37 @@ import (
 	"github.com/cloudwego/dynamicgo/internal/simrt"
 	"github.com/cloudwego/dynamicgo/meta"
 	"github.com/cloudwego/dynamicgo/thrift"
+	"github.com/cloudwego/dynamicgo/thrift/base"
 )
+
+const baseIDL = `namespace go base
+struct TrafficEnv {
+    1: bool Open = false,
+    2: string Env = "",
+}
+struct Base {
+    1: string LogID = "",
+    2: string Caller = "",
+    3: string Addr = "",
+    4: string Client = "",
+    5: optional TrafficEnv TrafficEnv,
+    6: optional map<string, string> Extra,
+}
+struct BaseResp {
+    1: string StatusMessage = "",
+    2: i32 StatusCode = 0,
+    3: optional map<string, string> Extra,
+}
+`
+
+func sortedStrStrKeys(m map[string]string) []string {
+	ks := make([]string, 0, len(m))
+	for k := range m {
+		ks = append(ks, k)
+	}
+	sortStrings(ks)
+	return ks
+}
 
 func init() { register("C02", runC02) }
 
@@ -48,6 +78,38 @@ func runC02(w *W) {
 	w.World.GuardGrowth = !so.NoBinary
 	sch := genSchema(t, so)
 	po := thrift.Options{}
+	// thrift request base: a root field of type base.Base is filled from the context, in front of the JSON members
+	var reqBase *base.Base
+	var baseBytes []byte
+	if t.Chance(1, 8, "sch.base") && sch.Root.St.ByID(32000) == nil {
+		sch.Includes = map[string]string{"base.thrift": baseIDL}
+		sch.IncludeText = "include \"base.thrift\"\n"
+		sch.Root.St.RawFields = append(sch.Root.St.RawFields, "32000: base.Base Base")
+		sch.IDL = renderIDL(sch)
+		po.EnableThriftBase = true
+		reqBase = &base.Base{LogID: string(vgenStr(t, 30)), Caller: string(vgenStr(t, 60)), Addr: "a", Client: ""}
+		if t.Chance(1, 2, "base.extra") {
+			reqBase.Extra = map[string]string{string(vgenStr(t, 8)): string(vgenStr(t, 200))}
+		}
+		baseBytes = append(baseBytes, tSTRUCT, 0x7d, 0x00)
+		for i, s := range []string{reqBase.LogID, reqBase.Caller, reqBase.Addr, reqBase.Client} {
+			baseBytes = append(baseBytes, tSTRING, 0, byte(i+1), byte(len(s)>>24), byte(len(s)>>16), byte(len(s)>>8), byte(len(s)))
+			baseBytes = append(baseBytes, s...)
+		}
+		if reqBase.Extra != nil {
+			baseBytes = append(baseBytes, tMAP, 0, 6, tSTRING, tSTRING, 0, 0, 0, 1)
+			for _, k := range sortedStrStrKeys(reqBase.Extra) {
+				v := reqBase.Extra[k]
+				baseBytes = append(baseBytes, 0, 0, 0, byte(len(k)))
+				baseBytes = append(baseBytes, k...)
+				baseBytes = append(baseBytes, 0, 0, 0, byte(len(v)))
+				baseBytes = append(baseBytes, v...)
+			}
+		}
+		baseBytes = append(baseBytes, 0)
+		w.Count("worlds_with_thrift_base")
+		w.Sig("thriftbase")
+	}
 	if so.Defaults {
 		po.UseDefaultValue = t.Chance(1, 2, "parse.usedefault")
 	}
@@ -58,9 +120,13 @@ func runC02(w *W) {
 	wo.UseDefaultValue = po.UseDefaultValue
 	opts.String2Int64 = t.Chance(1, 5, "opt.string2int")
 	opts.NoBase64Binary = t.Chance(1, 6, "opt.nobase64")
+	opts.EnableThriftBase = reqBase != nil
 	cv := j2t.NewBinaryConv(opts)
 	w.Logf("conv.Options: %+v  flavour=%s", opts, flavour)
 	ctx := context.Background()
+	if reqBase != nil {
+		ctx = context.WithValue(ctx, conv.CtxKeyThriftReqBase, reqBase)
+	}
 
 	ndocs := 1 + t.Intn(4, "ndocs")
 	for d := 0; d < ndocs; d++ {
@@ -80,7 +146,7 @@ func runC02(w *W) {
 			style.TrailingWS = t.Intn(40, "js.trailing.n")
 		}
 		js := style.render(val)
-		exp, experr := expectJ2T(nil, val, wo)
+		exp, experr := expectJ2T(append([]byte{}, baseBytes...), val, wo)
 		negative := ""
 		if experr == expOK && t.Chance(1, 8, "doc.negative") && len(js) > 2 {
 			// malformed inside the top-level value: cut the document short
@@ -137,7 +203,11 @@ func runC02(w *W) {
 				}
 				if !bytes.Equal(r.Out, exp) {
 					facts["diff"] = diffShape(r.Out, exp)
-					facts["null_header_residue"] = fmt.Sprint(nullHeaderResidue(r.Out, exp, val, wo))
+					if len(baseBytes) == 0 {
+						facts["null_header_residue"] = fmt.Sprint(nullHeaderResidue(r.Out, exp, val, wo))
+					} else if bytes.HasPrefix(r.Out, baseBytes) {
+						facts["null_header_residue"] = fmt.Sprint(nullHeaderResidue(r.Out[len(baseBytes):], exp[len(baseBytes):], val, wo))
+					}
 					w.Failf("wrong-bytes", facts, "output differs from the reference encoding (env %s)\n got: %x\nwant: %x\njson: %s", env, clipb(r.Out, 400), clipb(exp, 400), clip(js, 400))
 				}
 				w.Count("conforming_docs_ok")
